@@ -168,7 +168,10 @@ class Task:
             self.finish()
         except OSError:
             self.close_on_finish = True
-            if self.channel.adj.log_socket_errors:
+            # an OSError raised before any output is an application failure
+            # that still has to be answered with a 500, whatever the logging
+            # preference for socket errors
+            if self.channel.adj.log_socket_errors or not self.wrote_header:
                 raise
 
     @property
